@@ -1,6 +1,7 @@
 mod common;
 mod cursor;
 mod store;
+mod conc;
 mod table;
 mod sync_replay;
 mod log_replay;
@@ -16,6 +17,7 @@ fn main() {
     match args[1].as_str() {
         "cursor-replay" => cursor::main(&args[2..]),
         "store-run" => store::main(&args[2..]),
+        "conc-stress" => conc::main(&args[2..]),
         "lru-replay" => sync_replay::lru(&args[2..]),
         "coalesce-stress" => sync_replay::coalesce(&args[2..]),
         "store-recover" => store::recover(&args[2..]),
